@@ -126,13 +126,15 @@ def mc_jobs(ctx, d, pool):
         return [r]
 
     def padding():
-        r = lib.tlc(ctx, d, "MC_Padding", "MC_Padding.cfg", workers=3, timeout=1500)
-        lib.require_coverage(r, ["Next"])
+        # -coverage costs a factor of 3-5 here; the vacuity guard is the exact size of the domain instead
+        r = lib.tlc(ctx, d, "MC_Padding", "MC_Padding.cfg", workers=3, timeout=1500, coverage=False)
+        if r.distinct != 48 + 48 * 729 or r.depth != 2:
+            raise lib.ToolError("vacuity: MC_Padding explored %d states, depth %d" % (r.distinct, r.depth))
         return [r]
 
     pool.submit("decnat", 1, decnat)
     pool.submit("padding", 3, padding)
-    slices = 6 if ctx.quick() else 4
+    slices = 48 if ctx.quick() else 4
     chosen = [(ctx.seed * 2 + j) % slices for j in range(2)] if ctx.quick() else list(range(slices))
     for s in chosen:
         name = wrapper(d, "MC_ChangeStrategy", "MC_ChangeStrategy_s%d" % s)
@@ -142,8 +144,10 @@ def mc_jobs(ctx, d, pool):
                                          "CHECK_DEADLOCK FALSE"])
 
         def job(name=name, cfg=cfg):
-            r = lib.tlc(ctx, d, name, cfg, workers=2, timeout=3000)
-            lib.require_coverage(r, ["Pick1", "Pick2"])
+            r = lib.tlc(ctx, d, name, cfg, workers=2, timeout=3000, coverage=False)
+            # 576 policy/pattern combinations, each completed in ~2 400 ways, 1/slices of them sampled
+            if r.depth != 3 or r.distinct < 577 + 576 * 2000 // slices:
+                raise lib.ToolError("vacuity: %s explored %d states, depth %d" % (name, r.distinct, r.depth))
             return [r]
         pool.submit(name, 2, job)
 
@@ -153,11 +157,10 @@ def fee_cases(ctx, d):
     write_cfg(os.path.join(d, "Emit_Zip317.cfg"), ["SPECIFICATION Spec", "CONSTANT Emit = TRUE",
                                                    "INVARIANTS FeeFloor FeeMonotone MaxNotSum CeilLaw",
                                                    "CHECK_DEADLOCK FALSE"])
-    r = lib.tlc(ctx, d, "MC_Zip317", "Emit_Zip317.cfg", workers=1, timeout=1500)
-    lib.require_coverage(r, ["Eval"])
+    r = lib.tlc(ctx, d, "MC_Zip317", "Emit_Zip317.cfg", workers=1, timeout=1500, coverage=False)
     cases = r.prints("CASE")
-    if len(cases) < 30000:
-        raise lib.ToolError("MC_Zip317 emitted only %d cases" % len(cases))
+    if len(cases) != 3 * 7 * 7 * 4 ** 4 or r.distinct != 2 * len(cases):
+        raise lib.ToolError("vacuity: MC_Zip317 emitted %d cases, %d states" % (len(cases), r.distinct))
     path = ctx.path("fee_cases.ndjson")
     with open(path, "w") as f:
         for c in cases:
@@ -305,7 +308,7 @@ def run(ctx):
 
     # (3) trace of the real code (generated now, validated while the model checking runs)
     tpath = ctx.path("trace.ndjson")
-    n_random = 8000 if ctx.quick() else 150000
+    n_random = 20000 if ctx.quick() else 200000
     info = gen_trace(ctx, bindir, tpath, n_random, 1 if ctx.quick() else 2)
     recs = read_trace(tpath)
     if len(recs) != info["records"]:
